@@ -260,7 +260,167 @@ func compareRows(c *c19Case, o *core.ObservedTable, want [][]core.Val, when stri
 	return nil
 }
 
+// callMain runs the tool's real main() - flag parsing, opening the database,
+// makeConfig, the import, the report loop, whatever it does before it returns
+// - with the given command line and standard input.
+func callMain(args []string, stdin []byte, scratch string) (panicMsg string, err error) {
+	in := filepath.Join(scratch, "stdin.csv")
+	if err := os.WriteFile(in, stdin, 0644); err != nil {
+		return "", err
+	}
+	f, err := os.Open(in)
+	if err != nil {
+		return "", err
+	}
+	defer f.Close()
+	defer os.Remove(in)
+	keepArgs, keepIn := os.Args, os.Stdin
+	os.Args, os.Stdin = append([]string{"csvimport"}, args...), f
+	defer func() {
+		os.Args, os.Stdin = keepArgs, keepIn
+		if r := recover(); r != nil {
+			panicMsg = fmt.Sprint(r)
+		}
+	}()
+	main()
+	return "", nil
+}
+
+// runC19Twice: the tool is run twice in a row on the same document, as two
+// processes (each run is the real main(); the process ends when main returns,
+// before the next flush tick); then the console starts (InitStorage). Every
+// record either run acknowledged must be in the table, in input order, the
+// second run's rows after the first's.
+func runC19Twice(c *c19Case, scratch string, stats map[string]int64) (v *core.DriverViolation, harness string, hash string) {
+	ref := c.reference()
+	args := []string{"-db", "db", "-table", "t", "-dest-cols", strings.Join(c.DstCols, ","), "-separator", c.Sep}
+	var src []string
+	for _, x := range c.SrcCols {
+		src = append(src, strconv.Itoa(x))
+	}
+	args = append(args, "-src-cols", strings.Join(src, ","))
+	var files map[string][]byte
+	var hashes []string
+	// stage runs fn in a fresh world built from the files the previous stage left
+	stage := func(name string, fn func(w *core.World) *core.DriverViolation) (*core.DriverViolation, string) {
+		dir := filepath.Join(scratch, "w-"+name)
+		os.MkdirAll(dir, 0755)
+		defer os.RemoveAll(dir)
+		w, err := core.NewWorld(dir, core.Knobs{CacheCap: c.CacheCap}, "C19", files)
+		if err != nil {
+			return nil, err.Error()
+		}
+		defer w.Unmount()
+		if v := fn(w); v != nil {
+			return v, ""
+		}
+		if mv := w.MonitorViolation(); mv != nil {
+			return mkViolation(c, "monitor", mv.Detail), ""
+		}
+		files = w.SnapshotFiles() // the process ends here: what is in the files is all that is left
+		if err := w.CheckShadows(); err != nil {
+			return nil, err.Error()
+		}
+		hashes = append(hashes, w.HashString())
+		for k, x := range w.StatsCopy() {
+			stats[k] += x
+		}
+		return nil, ""
+	}
+	var setupErr string
+	if v, h := stage("setup", func(w *core.World) *core.DriverViolation {
+		if err := storage.CreateDB("db"); err != nil {
+			setupErr = "CreateDB: " + err.Error()
+			return nil
+		}
+		rs, err := storage.OpenRelation("db", true)
+		if err != nil {
+			setupErr = "OpenRelation: " + err.Error()
+			return nil
+		}
+		ct := sql.CreateTable{Name: "t"}
+		for _, col := range c.Cols {
+			var dt interface{}
+			switch col.Type {
+			case core.TInt:
+				dt = sql.NumericType{}
+			case core.TBigInt:
+				dt = sql.BigIntType{}
+			case core.TBool:
+				dt = sql.BooleanType{}
+			default:
+				dt = sql.CharacterStringType{Len: 255, Type: sql.T_VARCHAR}
+			}
+			ct.Elements = append(ct.Elements, sql.TableElement{ColumnDefinition: sql.ColumnDefinition{Name: col.Name, DataType: dt}})
+		}
+		if err := engine.EvaluateCreateTable(ct, rs); err != nil {
+			setupErr = "CREATE TABLE: " + err.Error()
+			return nil
+		}
+		if err := rs.Close(); err != nil {
+			setupErr = "Close: " + err.Error()
+		}
+		return nil
+	}); v != nil || h != "" || setupErr != "" {
+		return v, h + setupErr, ""
+	}
+	for run := 1; run <= 2; run++ {
+		name := fmt.Sprintf("run%d", run)
+		if v, h := stage(name, func(w *core.World) *core.DriverViolation {
+			w.PreStmt(0, nil)
+			w.BeginStmt(0, "insert", nil)
+			pmsg, err := callMain(args, c.Text, scratch)
+			w.EndStmt()
+			if err != nil {
+				setupErr = err.Error()
+				return nil
+			}
+			if pmsg != "" {
+				return mkViolation(c, "main-panic", fmt.Sprintf("run %d of the tool panicked: %s", run, pmsg))
+			}
+			return nil
+		}); v != nil || h != "" || setupErr != "" {
+			return v, h + setupErr, ""
+		}
+		stats["tool_runs_through_main"]++
+	}
+	want := append(append([][]core.Val(nil), ref.rows...), ref.rows...)
+	if v, h := stage("console", func(w *core.World) *core.DriverViolation {
+		w.SetRecovery(true)
+		var ierr error
+		pmsg, _ := w.Guarded(func() { ierr = storage.InitStorage() })
+		w.SetRecovery(false)
+		if pmsg != "" || ierr != nil {
+			return mkViolation(c, "recovery", fmt.Sprintf("InitStorage after two runs of the tool: %v %s", ierr, pmsg))
+		}
+		rs, err := storage.OpenRelation("db", true)
+		if err != nil {
+			return mkViolation(c, "recovery", "OpenRelation after two runs of the tool: "+err.Error())
+		}
+		o, err := w.Observe(rs, "t")
+		if err != nil {
+			return mkViolation(c, "select-error", "SELECT * after two runs of the tool: "+err.Error())
+		}
+		if v := compareRows(c, o, want, "after two runs of the tool over the same document and a start of the console"); v != nil {
+			v.Features["how"] = "twice-" + v.Features["how"]
+			return v
+		}
+		rs.Close()
+		return nil
+	}); v != nil || h != "" {
+		return v, h, ""
+	}
+	stats["records"] += 2 * int64(ref.records)
+	stats["records_accepted"] += 2 * int64(len(ref.rows))
+	stats["records_rejected"] += 2 * int64(ref.errs)
+	stats["post_twice"]++
+	return nil, "", strings.Join(hashes, "")
+}
+
 func runC19(c *c19Case, scratch string, stats map[string]int64) (v *core.DriverViolation, harness string, hash string) {
+	if c.Post == "twice" {
+		return runC19Twice(c, scratch, stats)
+	}
 	dir := filepath.Join(scratch, "w")
 	os.MkdirAll(dir, 0755)
 	defer os.RemoveAll(dir)
@@ -633,6 +793,11 @@ func genC19(seed uint64, thorough bool) *c19Case {
 		c.Advances = append(c.Advances, c19Adv{At: r.Intn(60 * nrec), Ms: r.Range(60, 400)})
 	}
 	c.Post = []string{"", "", "restart", "crash"}[r.Intn(4)]
+	if !flood && r.Chance(0.05) {
+		// the tool itself, twice in a row on this document (no stream fault: the
+		// document comes from a file on standard input)
+		c.Post, c.Fault, c.Advances, c.SlowListenerMs = "twice", "", nil, 0
+	}
 	return c
 }
 
